@@ -79,13 +79,24 @@ def run(chk, tier):
         docs_blind_identity(chk, prog, prog.config)
         if "docs" in feats:
             # "docs changes documentation strings only": the docs-gated setters may differ, but only in the docs slot
-            c17.transitions(chk, prog, prog.config, True)
+            c17.transitions(chk, prog, prog.config, True, only=gated_setters(ref, prog))
         n += 1
         # keep memory bounded in the full matrix
         facts._loaded.pop((prog.config, "scale_info"), None)
     chk.count("configurations_compared", n)
     chk.floor("R15.2", n, 4 if tier == "quick" else 60, "configurations compared with the reference")
     chk.trusted += ["dependency features do not change leaf encodings", "cargo feature unification"]
+
+
+def gated_setters(ref, prog):
+    """names of builder methods whose body exists in both configurations but is compiled from feature-dependent source: those whose
+    fingerprint differs from the reference, plus every method called `docs` (the documented gate)"""
+    names = {"docs"}
+    for p in prog._bodies_raw:
+        sp = mir.strip_generics(p)
+        if sp.startswith("scale_info::build::") and p in ref._bodies_raw and fingerprint(prog.body(p)) != fingerprint(ref.body(p)):
+            names.add(sp.split("::")[-1])
+    return names
 
 
 # ----------------------------------------------------------------------------------- R15.5
